@@ -544,7 +544,7 @@ class Gen(object):
             c.update(k=k, ps=ps)
             if k in ('list', 'tuple') and ps and rng.random() < self.danger * 0.3: c['bad'] = rng.randint(1, len(ps))
         return c
-    def read(self, y):
+    def read(self, y, array=None):
         rng = self.rng
         if isinstance(y, dict):
             n = rng.choice(['len', 'iter', 'repr', 'bool', 'copy', 'copy.copy', 'deepcopy', 'pickle', 'json', 'eq', 'contains', 'get', 'getitem',
@@ -559,7 +559,8 @@ class Gen(object):
             r = {'op': 'read', 'r': n}
             if n == 'getitem': r['i'] = rand_index(rng, len(y))
             if n == 'slice': r.update(a=rand_bound(rng, len(y)), b=rand_bound(rng, len(y)))
-            if n in ('contains', 'index', 'count'): r['v'] = enc(plain(rng.choice(y))) if y and rng.random() < 0.7 else self.value(1)
+            # (TrackedArray.__contains__ gives an iterable argument the meaning 'subset': only scalars are asked of arrays)
+            if n in ('contains', 'index', 'count'): r['v'] = enc(plain(rng.choice(y))) if y and rng.random() < 0.7 else self.value(0 if array else 1)
             if n == 'eq': r['v'] = enc(plain(y)) if rng.random() < 0.5 else self.value()
         return r
 
@@ -589,7 +590,7 @@ def random_program(env, rng, attr, nops, danger):
                 path, y = rng.choice(deep) if deep and rng.random() < 0.5 else rng.choice(conts)
                 var = 'x%d' % g.nvar; g.nvar += 1
                 ops.append({'op': 'take', 'var': var, 'path': path})
-            if r < 0.30: op = g.read(y)
+            if r < 0.30: op = g.read(y, akind)
             else: op = g.list_call(y, akind) if isinstance(y, list) else g.dict_call(y)
             op['var'] = var
             return ops + [op]
